@@ -215,8 +215,8 @@ fn describe(r: &Resolve, inst: &Instruction<'_>) -> (String, bool, Option<&'stat
     use Instruction::*;
     let t = |t: &Type| ty_term(r, t);
     match inst {
-        GetArg { nth } => (format!("arg:{nth}"), false, Some("arg")),
-        I32Const { val } => (format!("i32:{val}"), false, Some("const")),
+        GetArg { nth } => (format!("arg {nth}"), false, Some("arg")),
+        I32Const { val } => (format!("i32 {val}"), false, Some("const")),
         Bitcasts { casts } => (
             format!(
                 "Bitcasts:{}",
@@ -226,59 +226,59 @@ fn describe(r: &Resolve, inst: &Instruction<'_>) -> (String, bool, Option<&'stat
             None,
         ),
         ConstZero { tys } => (format!("ConstZero:{}", wts(tys)), false, None),
-        I32Load { offset } => (format!("I32Load:{}", off(offset)), false, None),
-        I32Load8U { offset } => (format!("I32Load8U:{}", off(offset)), false, None),
-        I32Load8S { offset } => (format!("I32Load8S:{}", off(offset)), false, None),
-        I32Load16U { offset } => (format!("I32Load16U:{}", off(offset)), false, None),
-        I32Load16S { offset } => (format!("I32Load16S:{}", off(offset)), false, None),
-        I64Load { offset } => (format!("I64Load:{}", off(offset)), false, None),
-        F32Load { offset } => (format!("F32Load:{}", off(offset)), false, None),
-        F64Load { offset } => (format!("F64Load:{}", off(offset)), false, None),
-        PointerLoad { offset } => (format!("PointerLoad:{}", off(offset)), false, None),
-        LengthLoad { offset } => (format!("LengthLoad:{}", off(offset)), false, None),
-        I32Store { offset } => (format!("I32Store:{}", off(offset)), true, None),
-        I32Store8 { offset } => (format!("I32Store8:{}", off(offset)), true, None),
-        I32Store16 { offset } => (format!("I32Store16:{}", off(offset)), true, None),
-        I64Store { offset } => (format!("I64Store:{}", off(offset)), true, None),
-        F32Store { offset } => (format!("F32Store:{}", off(offset)), true, None),
-        F64Store { offset } => (format!("F64Store:{}", off(offset)), true, None),
-        PointerStore { offset } => (format!("PointerStore:{}", off(offset)), true, None),
-        LengthStore { offset } => (format!("LengthStore:{}", off(offset)), true, None),
+        I32Load { offset } => (format!("I32Load {}", off(offset)), false, None),
+        I32Load8U { offset } => (format!("I32Load8U {}", off(offset)), false, None),
+        I32Load8S { offset } => (format!("I32Load8S {}", off(offset)), false, None),
+        I32Load16U { offset } => (format!("I32Load16U {}", off(offset)), false, None),
+        I32Load16S { offset } => (format!("I32Load16S {}", off(offset)), false, None),
+        I64Load { offset } => (format!("I64Load {}", off(offset)), false, None),
+        F32Load { offset } => (format!("F32Load {}", off(offset)), false, None),
+        F64Load { offset } => (format!("F64Load {}", off(offset)), false, None),
+        PointerLoad { offset } => (format!("PointerLoad {}", off(offset)), false, None),
+        LengthLoad { offset } => (format!("LengthLoad {}", off(offset)), false, None),
+        I32Store { offset } => (format!("I32Store {}", off(offset)), true, None),
+        I32Store8 { offset } => (format!("I32Store8 {}", off(offset)), true, None),
+        I32Store16 { offset } => (format!("I32Store16 {}", off(offset)), true, None),
+        I64Store { offset } => (format!("I64Store {}", off(offset)), true, None),
+        F32Store { offset } => (format!("F32Store {}", off(offset)), true, None),
+        F64Store { offset } => (format!("F64Store {}", off(offset)), true, None),
+        PointerStore { offset } => (format!("PointerStore {}", off(offset)), true, None),
+        LengthStore { offset } => (format!("LengthStore {}", off(offset)), true, None),
         ListCanonLower { element, realloc: rl } => (
-            format!("ListCanonLower:{}:{}", t(element), realloc(rl)),
+            format!("ListCanonLower {} {}", t(element), realloc(rl)),
             true,
             None,
         ),
-        StringLower { realloc: rl } => (format!("StringLower:{}", realloc(rl)), true, None),
+        StringLower { realloc: rl } => (format!("StringLower {}", realloc(rl)), true, None),
         ListLower { element, realloc: rl } => {
-            (format!("ListLower:{}:{}", t(element), realloc(rl)), true, None)
+            (format!("ListLower {} {}", t(element), realloc(rl)), true, None)
         }
-        ListCanonLift { element, .. } => (format!("ListCanonLift:{}", t(element)), false, None),
+        ListCanonLift { element, .. } => (format!("ListCanonLift {}", t(element)), false, None),
         StringLift => ("StringLift".into(), false, None),
-        ListLift { element, .. } => (format!("ListLift:{}", t(element)), false, None),
+        ListLift { element, .. } => (format!("ListLift {}", t(element)), false, None),
         MapLower { key, value, realloc: rl } => (
-            format!("MapLower:{}:{}:{}", t(key), t(value), realloc(rl)),
+            format!("MapLower {} {} {}", t(key), t(value), realloc(rl)),
             true,
             None,
         ),
-        MapLift { key, value, .. } => (format!("MapLift:{}:{}", t(key), t(value)), false, None),
+        MapLift { key, value, .. } => (format!("MapLift {} {}", t(key), t(value)), false, None),
         FixedLengthListLift { element, size, .. } => (
-            format!("FixedLengthListLift:{}:{size}", t(element)),
+            format!("FixedLengthListLift {} {size}", t(element)),
             false,
             None,
         ),
         FixedLengthListLower { element, size, .. } => (
-            format!("FixedLengthListLower:{}:{size}", t(element)),
+            format!("FixedLengthListLower {} {size}", t(element)),
             false,
             None,
         ),
         FixedLengthListLowerToMemory { element, size, .. } => (
-            format!("FixedLengthListLowerToMemory:{}:{size}", t(element)),
+            format!("FixedLengthListLowerToMemory {} {size}", t(element)),
             true,
             None,
         ),
         FixedLengthListLiftFromMemory { element, size, .. } => (
-            format!("FixedLengthListLiftFromMemory:{}:{size}", t(element)),
+            format!("FixedLengthListLiftFromMemory {} {size}", t(element)),
             false,
             None,
         ),
@@ -286,11 +286,11 @@ fn describe(r: &Resolve, inst: &Instruction<'_>) -> (String, bool, Option<&'stat
         IterMapKey { .. } => ("key".into(), false, Some("key")),
         IterMapValue { .. } => ("val".into(), false, Some("val")),
         IterBasePointer => ("base".into(), false, Some("base")),
-        RecordLower { record, .. } => (format!("RecordLower:{}", record.fields.len()), false, None),
-        RecordLift { record, .. } => (format!("RecordLift:{}", record.fields.len()), false, None),
+        RecordLower { record, .. } => (format!("RecordLower {}", record.fields.len()), false, None),
+        RecordLift { record, .. } => (format!("RecordLift {}", record.fields.len()), false, None),
         HandleLower { handle, .. } => (
             format!(
-                "HandleLower:{}",
+                "HandleLower {}",
                 if matches!(handle, Handle::Own(_)) { "own" } else { "borrow" }
             ),
             false,
@@ -298,7 +298,7 @@ fn describe(r: &Resolve, inst: &Instruction<'_>) -> (String, bool, Option<&'stat
         ),
         HandleLift { handle, .. } => (
             format!(
-                "HandleLift:{}",
+                "HandleLift {}",
                 if matches!(handle, Handle::Own(_)) { "own" } else { "borrow" }
             ),
             false,
@@ -310,31 +310,31 @@ fn describe(r: &Resolve, inst: &Instruction<'_>) -> (String, bool, Option<&'stat
         StreamLift { .. } => ("StreamLift".into(), false, None),
         ErrorContextLower => ("ErrorContextLower".into(), false, None),
         ErrorContextLift => ("ErrorContextLift".into(), false, None),
-        TupleLower { tuple, .. } => (format!("TupleLower:{}", tuple.types.len()), false, None),
-        TupleLift { tuple, .. } => (format!("TupleLift:{}", tuple.types.len()), false, None),
-        FlagsLower { flags, .. } => (format!("FlagsLower:{}", flags.flags.len()), false, None),
-        FlagsLift { flags, .. } => (format!("FlagsLift:{}", flags.flags.len()), false, None),
+        TupleLower { tuple, .. } => (format!("TupleLower {}", tuple.types.len()), false, None),
+        TupleLift { tuple, .. } => (format!("TupleLift {}", tuple.types.len()), false, None),
+        FlagsLower { flags, .. } => (format!("FlagsLower {}", flags.flags.len()), false, None),
+        FlagsLift { flags, .. } => (format!("FlagsLift {}", flags.flags.len()), false, None),
         VariantPayloadName => ("pl".into(), false, Some("pl")),
         VariantLower { variant, results, .. } => (
-            format!("VariantLower:{}:{}", variant.cases.len(), wts(results)),
+            format!("VariantLower {} {}", variant.cases.len(), wts(results)),
             false,
             None,
         ),
-        VariantLift { variant, .. } => (format!("VariantLift:{}", variant.cases.len()), false, None),
-        EnumLower { enum_, .. } => (format!("EnumLower:{}", enum_.cases.len()), false, None),
-        EnumLift { enum_, .. } => (format!("EnumLift:{}", enum_.cases.len()), false, None),
-        OptionLower { results, .. } => (format!("OptionLower:{}", wts(results)), false, None),
+        VariantLift { variant, .. } => (format!("VariantLift {}", variant.cases.len()), false, None),
+        EnumLower { enum_, .. } => (format!("EnumLower {}", enum_.cases.len()), false, None),
+        EnumLift { enum_, .. } => (format!("EnumLift {}", enum_.cases.len()), false, None),
+        OptionLower { results, .. } => (format!("OptionLower {}", wts(results)), false, None),
         OptionLift { .. } => ("OptionLift".into(), false, None),
-        ResultLower { results, .. } => (format!("ResultLower:{}", wts(results)), false, None),
+        ResultLower { results, .. } => (format!("ResultLower {}", wts(results)), false, None),
         ResultLift { .. } => ("ResultLift".into(), false, None),
         CallWasm { sig, .. } => (
-            format!("CallWasm:{}:{}", wts(&sig.params), wts(&sig.results)),
+            format!("CallWasm {} {}", wts(&sig.params), wts(&sig.results)),
             true,
             None,
         ),
         CallInterface { func, async_ } => (
             format!(
-                "CallInterface:{}:{}:{}",
+                "CallInterface {} {} {}",
                 func.params.len(),
                 usize::from(func.result.is_some()),
                 if *async_ { "async" } else { "sync" }
@@ -342,24 +342,24 @@ fn describe(r: &Resolve, inst: &Instruction<'_>) -> (String, bool, Option<&'stat
             true,
             None,
         ),
-        Return { amt, .. } => (format!("Return:{amt}"), true, None),
-        Malloc { size, align, .. } => (format!("Malloc:{}:{}", off(size), al(align)), true, None),
+        Return { amt, .. } => (format!("Return {amt}"), true, None),
+        Malloc { size, align, .. } => (format!("Malloc {} {}", off(size), al(align)), true, None),
         GuestDeallocate { size, align } => {
-            (format!("GuestDeallocate:{}:{}", off(size), al(align)), true, None)
+            (format!("GuestDeallocate {} {}", off(size), al(align)), true, None)
         }
         GuestDeallocateString => ("GuestDeallocateString".into(), true, None),
         GuestDeallocateList { element } => {
-            (format!("GuestDeallocateList:{}", t(element)), true, None)
+            (format!("GuestDeallocateList {}", t(element)), true, None)
         }
         GuestDeallocateMap { key, value } => (
-            format!("GuestDeallocateMap:{}:{}", t(key), t(value)),
+            format!("GuestDeallocateMap {} {}", t(key), t(value)),
             true,
             None,
         ),
-        GuestDeallocateVariant { blocks } => (format!("GuestDeallocateVariant:{blocks}"), true, None),
-        DropHandle { ty } => (format!("DropHandle:{}", t(ty)), true, None),
-        AsyncTaskReturn { params, .. } => (format!("AsyncTaskReturn:{}", wts(params)), true, None),
-        Flush { amt } => (format!("Flush:{amt}"), true, None),
+        GuestDeallocateVariant { blocks } => (format!("GuestDeallocateVariant {blocks}"), true, None),
+        DropHandle { ty } => (format!("DropHandle {}", t(ty)), true, None),
+        AsyncTaskReturn { params, .. } => (format!("AsyncTaskReturn {}", wts(params)), true, None),
+        Flush { amt } => (format!("Flush {amt}"), true, None),
         // scalar lifting / lowering: the Debug name is the canonical name
         I32FromChar | I64FromU64 | I64FromS64 | I32FromU32 | I32FromS32 | I32FromU16
         | I32FromS16 | I32FromU8 | I32FromS8 | CoreF32FromF32 | CoreF64FromF64 | S8FromI32
@@ -448,7 +448,7 @@ impl Conv {
         for i in &b.insts {
             if let Some(kind) = i.binder {
                 let e = match kind {
-                    "arg" | "const" => format!("({})", i.name.replace(':', " ")),
+                    "arg" | "const" => format!("({})", i.name),
                     k => format!("({k} {level})"),
                 };
                 self.env.insert(i.results[0], e);
